@@ -578,6 +578,29 @@ def main():
         L.append('Definition ht_new_size_%s (n : Z) : Z := %s.' % (tag, c_expr_to_gallina(m.group(1), ren)))
     L.append('')
 
+    # growth of the variable length object and of the object stack segment (C and C++)
+    for tag, fv, fo in (('c', 'vlobject.c', 'objstack.c'), ('cpp', 'vlobject.cpp', 'objstack.cpp')):
+        t = strip_comments(rd(fv))
+        b = t[t.index('_VLO_expand_memory (size_t' if tag == 'cpp' else '_VLO_expand_memory (vlo_t'):]
+        m1 = re.search(r'vlo_length\s*=\s*([^;]+);', b)
+        m2 = re.search(r'vlo_length\s*\+=\s*([^;]+);', b)
+        if not (m1 and m2):
+            raise Fail('%s: growth of the variable length object not found' % fv)
+        ren = {'VLO_LENGTH (*vlo)': 'len', 'length ()': 'len', 'additional_length': 'add', 'vlo_length': 'l'}
+        e1 = m1.group(1).replace('VLO_LENGTH (*vlo)', 'len').replace('length ()', 'len')
+        L.append('Definition vlo_new_len_%s (len add : Z) : Z := let l := %s in l + (%s).' % (
+            tag, c_expr_to_gallina(e1, {'len': 'len', 'additional_length': 'add'}), c_expr_to_gallina(m2.group(1), {'vlo_length': 'l'})))
+        t = strip_comments(rd(fo))
+        b = t[t.index('_OS_expand_memory (size_t' if tag == 'cpp' else '_OS_expand_memory (os_t'):]
+        m1 = re.search(r'segment_length\s*=\s*([^;]+);', b)
+        m2 = re.search(r'segment_length\s*\+=\s*([^;]+);', b)
+        m3 = re.search(r'if\s*\(\s*segment_length\s*<\s*OS_DEFAULT_SEGMENT_LENGTH\s*\)\s*segment_length\s*=\s*OS_DEFAULT_SEGMENT_LENGTH\s*;', b)
+        if not (m1 and m2 and m3):
+            raise Fail('%s: growth of the object stack segment not found' % fo)
+        L.append('Definition os_new_seg_%s (len add dflt : Z) : Z := let l := %s in let l := l + (%s) in if l <? dflt then dflt else l.' % (
+            tag, c_expr_to_gallina(m1.group(1), {'os_top_object_length': 'len', 'additional_length': 'add'}), c_expr_to_gallina(m2.group(1), {'segment_length': 'l'})))
+    L.append('')
+
     pre, hnd, post, vol, allocs, saves, restores, reassigned, changed = parse_protocol(yaep_c)
     L.append('(* init / fin / flag protocol of yaep_parse around its setjmp (C branch, debug printing dropped) *)')
     L.append('Inductive pstep := PCall (f : string) | PSet (flag : string) (v : bool).')
